@@ -30,6 +30,7 @@ type Obligation struct {
 	Names   map[string]string // interesting named terms for model display
 	Trivial bool
 	Candidate string // model of the quantifier-free weakening (candidate counterexample)
+	Instances int    // ground instances of quantified facts added to the query
 }
 
 type Run struct {
@@ -248,6 +249,11 @@ type Frame struct {
 	panics   []*State
 	loopFrames map[*ssa.BasicBlock][]loopFrameRec
 	curRet     string // return site whose deferred calls are being run
+	scope      *ssa.BasicBlock // loop header whose phi names take precedence in contract expressions
+	innerLoop  map[*ssa.BasicBlock]*ssa.BasicBlock
+	loopChain  map[*ssa.BasicBlock][]*ssa.BasicBlock
+	loopEntry  map[*ssa.BasicBlock]*State
+	rangeIdxFn map[int]string
 }
 
 type loopFrameRec struct {
@@ -396,6 +402,9 @@ func (fr *Frame) computeAnchors() {
 	bpos := func(b *ssa.BasicBlock) token.Pos {
 		best := token.NoPos
 		for _, in := range b.Instrs {
+			if _, isPhi := in.(*ssa.Phi); isPhi {
+				continue // a phi carries the position of the variable's declaration, not of the loop
+			}
 			if p := in.Pos(); p != token.NoPos && (best == token.NoPos || p < best) {
 				best = p
 			}
@@ -403,6 +412,9 @@ func (fr *Frame) computeAnchors() {
 		if best == token.NoPos {
 			// fall back to the loop body
 			for _, s := range b.Succs {
+				if s.Dominates(b) || !b.Dominates(s) {
+					continue
+				}
 				for _, in := range s.Instrs {
 					if p := in.Pos(); p != token.NoPos && (best == token.NoPos || p < best) {
 						best = p
@@ -421,6 +433,32 @@ func (fr *Frame) computeAnchors() {
 	})
 	for i, h := range heads {
 		fr.loopOrd[h] = i + 1
+	}
+	fr.innerLoop = map[*ssa.BasicBlock]*ssa.BasicBlock{}
+	fr.loopChain = map[*ssa.BasicBlock][]*ssa.BasicBlock{}
+	size := map[*ssa.BasicBlock]int{}
+	bodies := map[*ssa.BasicBlock]map[*ssa.BasicBlock]bool{}
+	for _, h := range heads {
+		bodies[h] = naturalLoop(h)
+	}
+	for _, h := range heads {
+		var chain []*ssa.BasicBlock
+		for _, h2 := range heads {
+			if bodies[h2][h] {
+				chain = append(chain, h2)
+			}
+		}
+		sort.SliceStable(chain, func(i, j int) bool { return len(bodies[chain[i]]) < len(bodies[chain[j]]) })
+		fr.loopChain[h] = chain
+	}
+	for _, h := range heads {
+		body := bodies[h]
+		for b := range body {
+			if cur, ok := fr.innerLoop[b]; !ok || len(body) < size[cur] {
+				fr.innerLoop[b] = h
+			}
+		}
+		size[h] = len(body)
 	}
 }
 
@@ -780,6 +818,7 @@ func (fr *Frame) runBlocks(order []*ssa.BasicBlock, in map[*ssa.BasicBlock][]*St
 			if _, ok := ins.(*ssa.Phi); ok {
 				continue
 			}
+			fr.scope = fr.innerLoop[b]
 			if !fr.step(st, ins) {
 				alive = false
 				break
@@ -885,9 +924,12 @@ func (fr *Frame) checkInvariant(h, from *ssa.BasicBlock, es *State, kind string)
 		fr.vals[phi] = v
 	}
 	_ = r
+	savedScope := fr.scope
+	fr.scope = h
 	for i, c := range invs {
 		fr.requireExpr(es, kind, fr.fname, fmt.Sprintf("loop#%d.%d", fr.loopOrd[h], i+1), c.Expr, nil, c.Tags, h.Instrs[0].Pos(), c.Text)
 	}
+	fr.scope = savedScope
 	for _, phi := range phisOf(h) {
 		if old, ok := saved[phi]; ok {
 			fr.vals[phi] = old
@@ -907,6 +949,11 @@ func (fr *Frame) enterLoop(h *ssa.BasicBlock, st *State) *State {
 		invs = fr.contract.LoopInv[ord]
 	}
 	// inv-init: phi values are already the forward-edge merge
+	fr.scope = h
+	if fr.loopEntry == nil {
+		fr.loopEntry = map[*ssa.BasicBlock]*State{}
+	}
+	fr.loopEntry[h] = st.clone()
 	for i, c := range invs {
 		fr.requireExpr(st, "inv-init", fr.fname, fmt.Sprintf("loop#%d.%d", ord, i+1), c.Expr, nil, c.Tags, h.Instrs[0].Pos(), c.Text)
 	}
